@@ -513,19 +513,23 @@ def check_concat_yields(ctx, rid, short, g, lo1, floop):
         ev.stubs = {p_.qualname: (lambda a, k, p_=p_: parse(a, k, which=p_)) for p_ in parsers}
         extra = {p_: f"<{p_}>" for p_ in g.posparams[1:]}
         ev.collect_yields = []
+        ended = True
         try:
             ev.run_free(g, [lit], dict(extra))
         except Raised:
-            continue  # how the sequence ends (and what is swallowed) is decided by R2 / R3 / R7
+            ended = False  # how the sequence ends (and what is swallowed) is decided by R2 / R3 / R7; the frames
+            # yielded before that are judged here all the same
         except NotSymbolic as exc:
             raise AnalysisError(f"{g.qualname} is outside the evaluation whitelist: {exc}") from exc
         ys = list(ev.collect_yields)
+        if not ended and not ys:
+            continue
         bad = None
         if len(ys) != len(frames) or any(not (isinstance(y, dict) and y == {"frame": i}) for i, y in enumerate(ys)):
             bad = f"the frame parser returned {len(frames)} frame(s), the generator yields {[y if not isinstance(y, dict) else y for y in ys]!r}"[:200]
         elif any(f_ != {"frame": i} for i, f_ in enumerate(frames)):
             bad = f"the frames are modified before they are yielded: {frames!r}"[:200]
-        elif len(frames) != 2:
+        elif len(frames) != 2 and ended:
             bad = f"{len(frames)} frame(s) are parsed from an input of two"
         else:
             for which, a, k in calls[:2]:
@@ -538,7 +542,10 @@ def check_concat_yields(ctx, rid, short, g, lo1, floop):
                         bad = bad or f"the argument `{p_}` of load_many does not reach the frame parser (it receives {b.get(p_)!r})"
         verdicts.append(bad)
     if not verdicts:
-        raise AnalysisError(f"{g.qualname}: the generator does not end normally on a two-frame input with either end signal")
+        # no frame is yielded with either end signal: nothing to judge for this clause (a generator that raises before
+        # its first frame is R2 / R3 / R7's finding)
+        ctx.ok(rid, f"{short}.load_many: no frame is yielded before the generator raises on the model input; the clause has no instance here (how sequences end: R2 / R3 / R7)", f"{g.module.relpath}:{floop.lineno}")
+        return
     bad = next((v for v in verdicts if v), None)
     if bad:
         ctx.violate(rid, f"{short}.load_many does not yield the unmodified result of the module's load_one: {bad}", g, floop, construct="yield of load_one")
@@ -591,6 +598,10 @@ def check_two_frame_pairs(ctx, rid):
             ev = AccessorEval(prog, iocls, limit=80000)
             ev.module = dm.module
             ev._globals = {("iodata.utils", "angstrom"): 1.0}
+            if short == "xyz":
+                # (the default column table holds lambdas over the periodic table: the model columns stand for it too;
+                # whether the caller's columns reach the writer is C02-R24's clause)
+                ev._globals[(dm.module.name, "DEFAULT_ATOM_COLUMNS")] = xyz_cols
             ev.eager_generators = True
             ev.run_free(dm, [sink, [molecule(*fr) for fr in frames]], dict(kw_d))
             text = sink.text
@@ -601,6 +612,8 @@ def check_two_frame_pairs(ctx, rid):
             ev = AccessorEval(prog, licls, limit=80000)
             ev.module = lm.module
             ev._globals = {("iodata.utils", "angstrom"): 1.0}
+            if short == "xyz":
+                ev._globals[(lm.module.name, "DEFAULT_ATOM_COLUMNS")] = xyz_cols
             ev.collect_yields = []
             ev._in_generator = lm
             ev.eager_generators = True
